@@ -91,6 +91,10 @@ class Ctx:
             # `f = wrap(f)` after the def is the same thing without the @
             if isinstance(st, model.ast.Assign) and any(isinstance(t, model.ast.Name) and t.id == f.name for t in st.targets) and \
                     getattr(st, "lineno", 0) > getattr(f, "lineno", 0):
+                v_ = st.value
+                if isinstance(v_, model.ast.Call) and model.dotted(v_.func) in ("staticmethod", "classmethod") and len(v_.args) == 1 and \
+                        model.dotted(v_.args[0]) == f.name:
+                    continue        # the pre-decorator spelling of @staticmethod / @classmethod
                 if not self._unwrapped_rule:
                     self._unwrapped_rule = True
                     self.rule("T0-wrapped", "functions the rules are anchored in carry no decorator other than staticmethod/classmethod/property")
